@@ -155,6 +155,11 @@ def cases(M):
             v["microseconds"] = s * r.choice((999999, 10**6, 10**6 + 1, 59999999, 6 * 10**7, 86399999999, 864 * 10**8))
             v["seconds"] = r.choice((0, s * 59, -s * 60, s * 86399))
             v["days"] = r.choice((0, s * 6, -s * 7, s * 7))
+        elif mode == 0 and j % 64 == 0:
+            # years and months that cancel as days (6 years = 73 months of 30 days): both are still reported as given
+            k_ = r.choice((1, -1, 2, -3))
+            v = {n: 0 for n in KW} | {"years": 6 * k_, "months": -73 * k_, "days": r.choice((0, 3, -3)), "hours": r.choice((0, -5, 5)),
+                                      "microseconds": r.choice((0, 1))}
         elif mode == 7 and j % 8 == 7:
             # two Durations of the same timedelta value, split differently between years/months and days, one after the other
             # (equal and hash-equal objects: anything memoised per value must not hand one the other's breakdown)
